@@ -421,6 +421,23 @@ def c07_s5(ctx):
 
 
 # ================================================================ C08
+def _is_gaps_source(ctx, x):
+    """x yields the pairs of Segments::gaps(..): `gaps(..).into_iter()`, or `<windows>.flat_map(|w| gaps(w..))`."""
+    x = simp(x)
+    if re.match(r"^IntoIterator>::into_iter\(Segments::gaps\(", sstr(x)):
+        return True
+    if x[0] == "call" and (callee_name(x) or "").split("::")[-1] == "flat_map" and len(x[3]) == 2:
+        clo = x[3][1]
+        while clo[0] == "ref":
+            clo = clo[2]
+        c = ctx.prog.by_norm.get(clo[2]) if clo[0] == "agg" and clo[1] == "closure" else None
+        if c is not None:
+            ebc = ExprBuilder(ctx.prog, c)
+            rets = [sstr(ebc._def_expr(d, 0, (0,))) for d in c.defs(0) if d[0] in ("assign", "call")]
+            return bool(rets) and all(re.match(r"^(IntoIterator>::into_iter\()?Segments::gaps\(", r_) for r_ in rets)
+    return False
+
+
 @rule("C08", "C08-N1", 5, "every segment request the receiver builds is a pair produced by the gap computation, the (0,0) metadata marker under 'metadata missing', or (previous end, offset) under offset > previous end")
 def c08_n1(ctx):
     fns = impl_and_closures(ctx, RECV)
@@ -475,16 +492,18 @@ def c08_n1(ctx):
             par = ctx.prog.by_norm[f.parent]
             ebp = ExprBuilder(ctx.prog, par)
             src = None
+            src_e = None
             for pb, pt in par.all_calls():
                 ce = ebp.call(pb, pt)
                 if (callee_name(ce) or "").split("::")[-1] in ("map",) and len(ce[3]) == 2 and ce[3][1][0] == "agg" and ce[3][1][1] == "closure" and ce[3][1][2] == f.norm:
                     src = sstr(ce[3][0])
+                    src_e = ce[3][0]
             params = [vn for vn, l, pj in f.var_places if not pj and 2 <= l <= f.arg_count]
             comps = {expr_str(a), expr_str(z)}
             pa = {sstr(x) for x in eb.var_defs(expr_str(a))} if re.match(r"^\w+$", expr_str(a)) else {expr_str(a)}
             pz = {sstr(x) for x in eb.var_defs(expr_str(z))} if re.match(r"^\w+$", expr_str(z)) else {expr_str(z)}
             is_pair = any(re.match(r"^_?\w*\.0$", x) for x in pa | {expr_str(a)}) and any(re.match(r"^_?\w*\.1$", x) for x in pz | {expr_str(z)})
-            if src and re.match(r"^IntoIterator>::into_iter\(Segments::gaps\(", src) and is_pair:
+            if src and (re.match(r"^IntoIterator>::into_iter\(Segments::gaps\(", src) or _is_gaps_source(ctx, src_e)) and is_pair:
                 yield ok("C08-N1", key, at(f, s["span"]["line"]), "pair mapped from %s" % src[:120])
                 continue
             yield bad("C08-N1", key, at(f, s["span"]["line"]), "request built in a closure that is not mapped over Segments::gaps(..): source %s, fields %s / %s" % (src, sorted(pa), sorted(pz)))
@@ -824,8 +843,9 @@ def c08_n5(ctx):
             elif last == "drain" and (f.root or f.norm) in builds_nak:
                 why = "requests leave the queue by being sent in the NAK PDU built here"
             elif last == "extend":
-                arg = sstr(ExprBuilder(ctx.prog, f).call(b, t)[3][1]) if len(e[3]) > 1 else ""
-                if re.match(r"^Iterator::map\(IntoIterator>::into_iter\(Segments::gaps\(", arg):
+                arg_e = simp(ExprBuilder(ctx.prog, f).call(b, t)[3][1]) if len(e[3]) > 1 else None
+                arg = sstr(arg_e) if arg_e is not None else ""
+                if re.match(r"^Iterator::map\(IntoIterator>::into_iter\(Segments::gaps\(", arg) or (arg_e is not None and arg_e[0] == "call" and (callee_name(arg_e) or "").split("::")[-1] == "map" and arg_e[3] and _is_gaps_source(ctx, arg_e[3][0])):
                     why = "extended with requests mapped from Segments::gaps(..) (checked by C08-N1)"
             if why:
                 yield ok("C08-N5", key, at(f, t["span"]["line"]), "%s: %s" % (fname, why))
